@@ -15,6 +15,8 @@ Line-protocol driver for the C16 correspondence: evaluates the definitions of
         gen: core.<name> | top.<name> | sc.<prefix>.<attr> | el.<prefix>.<attr>
   touch <name>            first access of one name -> `<dict>`
   touchall                first access of every name (in dict order) -> `<dict>`
+  touchparent             first access, through the child, of every helper of the parent -> `<dict>` (unchanged)
+  lazyuse <new|meta|fields>  one use of the same class decorated WITHOUT bootstrap=True -> `ok` | `err <class>`
 -/
 open SpecVerif.Py SpecVerif.C16
 
@@ -111,6 +113,8 @@ structure St where
   sing : List (Name × Name)
   dict : Dict
   last : List AttrInfo      -- attributes of the last decorated class (`I:^` inherits them)
+  cur : Option Cls          -- the last class line (for `lazyuse`)
+  lz : LazyState
 
 def singularOf (tbl : List (Name × Name)) (a : Name) : Option Name :=
   (tbl.find? (fun p => p.1 == a)).map (·.2)
@@ -129,6 +133,7 @@ def handle (st : St) (line : String) : St × String :=
     | some c0 =>
       let c := if inheritLast then
           { c0 with inherited := st.last.map (fun a => ⟨a.name, a.kind, a.item⟩) } else c0
+      let st := { st with cur := some c, lz := LazyState.pending }
       match decorate (singularOf st.sing) c with
       | .error e => ({ st with dict := [] }, "err " ++ e.name)
       | .ok d =>
@@ -140,6 +145,15 @@ def handle (st : St) (line : String) : St × String :=
   | ["touch", n] =>
     let d := dissolve st.dict (nm n)
     ({ st with dict := d }, showDict d)
+  | ["touchparent"] =>
+    -- first use of the PARENT's helpers through the child: they dissolve onto the parent
+    (st, showDict st.dict)
+  | ["lazyuse", _] =>
+    match st.cur with
+    | none => (st, "bad-op")
+    | some c =>
+      let r := lazyUse (singularOf st.sing) c st.lz
+      ({ st with lz := r.1 }, match r.2 with | .ok _ => "ok" | .error e => "err " ++ e.name)
   | ["touchall"] =>
     let d := (st.dict.map (·.1)).foldl dissolve st.dict
     ({ st with dict := d }, showDict d)
@@ -153,4 +167,4 @@ partial def loop (h : IO.FS.Stream) (out : IO.FS.Stream) (st : St) : IO Unit := 
   loop h out st'
 
 def main : IO Unit := do
-  loop (← IO.getStdin) (← IO.getStdout) { sing := [], dict := [], last := [] }
+  loop (← IO.getStdin) (← IO.getStdout) { sing := [], dict := [], last := [], cur := none, lz := LazyState.pending }
